@@ -3,6 +3,7 @@
 //! (`Config::new`) parses the *process* argv with clap, so argv stays empty.
 
 mod c15;
+mod cli_sim;
 mod env_sim;
 mod gen;
 mod hashseed;
@@ -32,6 +33,13 @@ fn run_one(prop: &str, seed: u64, run: u64) -> Report {
     match prop {
         "C10" => loader_sim::run(seed, run),
         "C06" => env_sim::run(seed, run),
+        "C13" => {
+            let hs = prng::Rng::stream(seed, "C13", run, "thread").next_u64();
+            hashseed::on_fresh_thread(hs, 64, move || cli_sim::run(seed, run)).unwrap_or_else(|p| {
+                eprintln!("oalsim: C13 harness panic: {p}");
+                std::process::exit(2)
+            })
+        }
         "C15" => c15::run(seed, run),
         "C17" => c15::run_prop("C17", hist::Sem::C17, seed, run),
         "C18" => c15::run_prop("C18", hist::Sem::C18, seed, run),
@@ -46,6 +54,7 @@ fn replay_one(prop: &str, doc: &Value) -> Result<Option<Found>, String> {
     match prop {
         "C10" => loader_sim::replay(doc),
         "C06" => env_sim::replay(doc),
+        "C13" => cli_sim::replay(doc),
         "C15" => c15::replay(doc),
         "C17" => c15::replay_prop("C17", doc),
         "C18" => c15::replay_prop("C18", doc),
